@@ -506,3 +506,39 @@ def decide(actual, expected, argspecs, lane_bits, nlanes=None, rebase=None, max_
         if rebase is not None:
             done.add(key)
     return "HOLDS", "%d lane form(s), %d BDD nodes" % (lanes_done, nodes)
+
+
+def satisfy(t, argspecs, max_nodes=400000):
+    """t is a 1-bit term: ('SAT', {arg index: value}) | ('UNSAT', nodes) | (None, reason).  Used for implications
+    between a path condition and an address equality (is there an input on which the condition holds and the
+    address is none of the allowed ones?)."""
+    bits = {}
+    for lf in T.leaves(t, ("arg", "mem", "opaque", "undef", "poison")):
+        if lf[0] != "arg":
+            return None, "leaf %s" % lf[0]
+        for b in range(lf[3], lf[3] + lf[1]):
+            bits[(lf[2], b)] = True
+    if len(bits) > 1100:
+        return None, "%d input bits" % len(bits)
+
+    def keyf(kb):
+        k_, b_ = kb
+        lb = argspecs[k_][1] if k_ < len(argspecs) else 0
+        return ((b_ % lb) if lb else b_, (b_ // lb) if lb else 0, k_)
+    order = sorted(bits, key=keyf)
+    levels = {kb: j for j, kb in enumerate(order)}
+    bl = Blaster(levels, max_nodes)
+    try:
+        f = bl.blast(t)[0]
+    except Unsupported as e:
+        return None, str(e)
+    except RecursionError:
+        return None, "recursion depth"
+    if f == 0:
+        return "UNSAT", len(bl.B.var)
+    asg = bl.B.sat_one(f)
+    vals = {}
+    for (k_, b_), lv in levels.items():
+        if asg.get(lv):
+            vals[k_] = vals.get(k_, 0) | (1 << b_)
+    return "SAT", vals
